@@ -19,7 +19,7 @@ FN = ['parsePkgLength', 'parseNumConstant', 'parseString', 'parseNameString', 'n
 class C12(flow.Spec):
     prop = 'C12'
     props_files = ['theories/Props/C12.v', 'theories/Props/C12_examples.v', 'theories/Props/C12_reader_trans.v']
-    model_targets = ['theories/Aml/RunC12.vo', 'theories/Aml/ParserProofsTop.vo', 'theories/Aml/ParserTotalTop.vo', 'theories/Aml/ParserTotalCalls.vo', 'theories/Aml/ParserTotalReloc.vo', 'theories/Aml/ParserTotalMerge.vo']
+    model_targets = ['theories/Aml/RunC12.vo', 'theories/Aml/ParserProofsTop.vo', 'theories/Aml/ParserTotalTop.vo', 'theories/Aml/ParserTotalCalls.vo', 'theories/Aml/ParserTotalReloc.vo', 'theories/Aml/ParserTotalMerge.vo', 'theories/Aml/ParserTotalResolve.vo']
     pkg = 'device/acpi/aml'
     harness = [os.path.join(H, 'zz_verif_c12_test.go'), os.path.join(H, 'zz_verif_amlcommon_test.go')]
     test = 'TestVerifC12$'
@@ -67,10 +67,13 @@ class C12(flow.Spec):
                'C12_parse_total_partial_nopanic_mergeScopeDirectives: mergeScopeDirectives (Find, scopeOf, moveContents, the three frees, the walk '
                'over the moved objects) never panics from ANY live object of ANY state that satisfies R / valid indexes / slices inside, has a '
                'parentless live ScopeBlock root at slot 0, and in which every Scope directive of the current table has the shape the first pass '
-               'gives it (name not a name segment; children = a childless object carrying the path as []byte - four-byte paths start with a name '
+               'gives it (name not a name segment; opcode-table row without the Named flag; children = a childless object carrying the path as []byte - four-byte paths start with a name '
                'character, \\ or ^ - and a ScopeBlock); all of these hold again afterwards and only objects below the start object are freed.  '
                'Key lemma: a lookup started at the directive\'s parent never ends inside the directive\'s subtree, so every append is legal.  '
                'The shape hypothesis is NOT yet derived from passes 1-2 (checked on concrete runs only); fuel is NOT analysed',
+               'C12_parse_total_partial_nopanic_resolve_loop: the loop of ParseAML that alternates mergeScopeDirectives(0) and relocateNamedObjects(0) '
+               'never panics from any state with the hypotheses of the mergeScopeDirectives theorem and re-establishes them (a relocation keeps '
+               'the shape of the Scope directives); so passes 3a/3b are chained with each other, NOT yet with passes 1-2 and 4-6',
                'the unproved parts of C12_full_parse_total (no Panic / OutOfFuel and R for the later passes, outcome class of load) are covered '
                'by the correspondence of the extracted model (explicit Panic / OutOfFuel outcomes, all passes modelled) with the real parser '
                'and by the harness monitors (outcome class, watchdog, independent link checker, PrettyPrint)',
